@@ -739,6 +739,13 @@ def d6_sync_indices(ctx):
                   f"sync count `{s}` is read from the wrong metadata field", key="nsync:" + ("nidq" if "nidq" in gs else "imec"))
 
 
+def _strip_round(e):
+    """x in int(round(x)) / round(x) / int(np.round(x)) / np.rint(x)"""
+    while isinstance(e, ast.Call) and call_name(e) in ("int", "round", "rint", "around") and e.args:
+        e = e.args[0]
+    return e
+
+
 def d7_type_fs(ctx):
     ctx.rule("D7", "stream type from snsApLfSy zero pattern; sampling rate key by device; nc from nSavedChans; ns = round(fileTimeSecs*fs)")
     repo = ctx.repo
@@ -774,7 +781,15 @@ def d7_type_fs(ctx):
     last = returns_of(ns.node)[-1]
     s = src(last)
     ev = Evaluator(resolve=lambda e: repo.resolve_expr(ns, e))
-    inner = last.value
+    from sa.common import expand_deep as _expand_deep
+    inner = _expand_deep(DefUse(ns.node), last.value, last)    # the product may be held in a local first
+    # every other return of a metadata-backed count rounds the same product (a type-specialised fast path: round(x) for a Python float)
+    for r_ in returns_of(ns.node)[:-1]:
+        if r_.value is None or "fileTimeSecs" not in src(_expand_deep(DefUse(ns.node), r_.value, r_)):
+            continue
+        rv = _expand_deep(DefUse(ns.node), r_.value, r_)
+        okr = isinstance(rv, ast.Call) and call_name(rv) in ("round", "int") and norm(_strip_round(rv)) == norm(_strip_round(inner))
+        ctx.check(okr, ns, r_, r_, "an alternative return rounds the same product to nearest", f"`{src(r_)}` does not round fileTimeSecs * fs to nearest like the main return", key="ns-alt", name_free=True)
     p = None
     try:
         class E2(Evaluator):
